@@ -5,6 +5,7 @@ package absnfs
 import (
 	"fmt"
 	"path"
+	"os"
 	"runtime"
 	"sort"
 	"strings"
@@ -271,6 +272,7 @@ func vfC29Episode(rec *evid.Rec, ep int) {
 	finals := make([]vfC29State, nclients)
 	var mismatch []string
 	var wg sync.WaitGroup
+	var stalled atomic.Int64 // requests that ran into a wall-clock deadline
 	evid.Journal(fmt.Sprintf("C29 episode %d mode=%s pipe=%v clients=%d", ep, mode, usePipe, nclients))
 	for k := 0; k < nclients; k++ {
 		wg.Add(1)
@@ -285,16 +287,23 @@ func vfC29Episode(rec *evid.Rec, ep int) {
 				defer pp.close()
 			}
 			// do performs one NFS call over the chosen transport
+			stalledHere := false
 			do := func(proc uint32, args []byte) *rfc.Res {
 				if pp == nil {
 					_, res, err := cl.nfs(proc, args)
 					if err != nil {
+						if strings.Contains(err.Error(), evid.WallClockMarker) {
+							stalled.Add(1)
+							stalledHere = true
+						}
 						return nil
 					}
 					return res
 				}
 				_, raw, err := pp.call(vfProgNFS, 3, proc, vfRootCred(), args)
 				if err != nil {
+					stalled.Add(1) // the pipe client gives up after 30 s, or the connection was closed
+					stalledHere = true
 					return nil
 				}
 				rep, err := rfc.DecodeReply(raw)
@@ -455,6 +464,9 @@ func vfC29Episode(rec *evid.Rec, ep int) {
 					}
 				}
 				ret := tick.Add(1)
+				if res == nil && stalledHere {
+					return // judged structurally after the episode (vfC29JudgeStall)
+				}
 				if res == nil {
 					mu.Lock()
 					mismatch = append(mismatch, fmt.Sprintf("client %d: %s %s got no decodable reply", k, in.Op, in.Path))
@@ -488,17 +500,20 @@ func vfC29Episode(rec *evid.Rec, ep int) {
 	select {
 	case <-done:
 	case <-time.After(60 * time.Second):
-		vfC29Hung = true
-		buf := make([]byte, 1<<20)
-		buf = buf[:runtime.Stack(buf, true)]
-		var blocked []string
-		for _, g := range strings.Split(string(buf), "\n\n") {
-			if strings.Contains(g, "absnfs.(*NFSProcedureHandler).handle") && (strings.Contains(g, "sync.(*RWMutex)") || strings.Contains(g, "sync.(*Mutex)")) {
-				lines := strings.Split(g, "\n")
-				blocked = append(blocked, strings.Join(lines[:min64i(len(lines), 12)], "\n"))
-			}
+		// The 60 s only decide WHEN to look. The verdict is structural: handler goroutines that
+		// sit in a lock acquisition, the very same goroutines again 5 s later (no progress), while
+		// every backend gate is open. A slow machine shows running or runnable goroutines instead
+		// and is inconclusive.
+		if vfC29JudgeStall(rec, ep, mode, done, "client goroutines still blocked after 60 s") {
+			return
 		}
-		rec.Violate("C29/requests-did-not-complete", fmt.Sprintf("client goroutines still blocked after 60 s (deadlock or lost reply); %d handler goroutines are waiting for a lock", len(blocked)), map[string]any{"episode": ep, "mode": mode, "blocked_handlers": blocked[:min64i(len(blocked), 4)]})
+		return
+	}
+	if stalled.Load() > 0 {
+		// some request ran into a wall-clock deadline (the server's 30 s request timeout, or the
+		// pipe client's): not a verdict by itself. It is one only if handler goroutines are
+		// structurally stuck on a lock.
+		vfC29JudgeStall(rec, ep, mode, done, fmt.Sprintf("%d requests ran into a wall-clock deadline", stalled.Load()))
 		return
 	}
 	fs.SetHook(nil)
@@ -996,4 +1011,49 @@ func vfC29Fills(rec *evid.Rec) {
 		srv.Close()
 	}
 	rec.Add("controlled_fill_races", len(scens))
+}
+
+// vfC29LockWaiters returns the handler goroutines (id -> top of stack) that sit in a mutex acquisition.
+func vfC29LockWaiters() map[string]string {
+	buf := make([]byte, 8<<20)
+	buf = buf[:runtime.Stack(buf, true)]
+	out := map[string]string{}
+	for _, g := range strings.Split(string(buf), "\n\n") {
+		if strings.Contains(g, "absnfs.(*NFSProcedureHandler).handle") && (strings.Contains(g, "sync.(*RWMutex)") || strings.Contains(g, "sync.(*Mutex)")) {
+			lines := strings.Split(g, "\n")
+			id := strings.Fields(lines[0])
+			if len(id) >= 2 {
+				out[id[1]] = strings.Join(lines[:min64i(len(lines), 12)], "\n")
+			}
+		}
+	}
+	return out
+}
+
+// vfC29JudgeStall decides an episode in which something did not come back in time. The clock only
+// decides WHEN to look; the verdict is structural: handler goroutines that sit in a lock acquisition,
+// the very same goroutines again 5 s later (no progress), while every backend gate is open. A slow
+// machine shows running or runnable goroutines instead, which is inconclusive. On a deadlock the
+// result record is written and the process ends at once: cleanup (Close waits for the stuck requests)
+// would never return. Returns true when it judged a violation (it does not return in that case).
+func vfC29JudgeStall(rec *evid.Rec, ep int, mode string, done <-chan struct{}, why string) bool {
+	first := vfC29LockWaiters()
+	time.Sleep(5 * time.Second)
+	second := vfC29LockWaiters()
+	var blocked []string
+	for id, st := range second {
+		if _, was := first[id]; was {
+			blocked = append(blocked, st)
+		}
+	}
+	if len(blocked) == 0 {
+		rec.Inconclusive(1)
+		rec.Add("episodes_stalled_without_lock_waiters", 1)
+		return false
+	}
+	vfC29Hung = true
+	rec.Violate("C29/requests-did-not-complete", fmt.Sprintf("%s; %d handler goroutines have been waiting for a lock in two goroutine dumps 5 s apart (deadlock)", why, len(blocked)), map[string]any{"episode": ep, "mode": mode, "blocked_handlers": blocked[:min64i(len(blocked), 4)]})
+	rec.Write()
+	os.Exit(0)
+	return true
 }
